@@ -246,6 +246,32 @@ def run_module(res: Result, ctx: Ctx, mi: int, pl, akind: str, srcdir: Path, onl
             res.oblige(f"result:{rk}", True)
         if res.states % 3001 == 1:
             res.sample({"params": G.render_params(pl, G.SHORT[:n]), "annotation_kind": akind, "strategy": s, "traced_mask": tm, "result": rk, "stub_head": text[:300]})
+    # the stub index polled while traces keep arriving (StubIndexBuilder as a logger): after the first poll saw calls that
+    # all ended with an exception, later traces of the same functions must still reach the next poll
+    if only is None and mi % 3 == 2:
+        from monkeytype.stubs import StubIndexBuilder
+
+        tm_full = (2 ** n) - 1
+        for rk in RESULT_KINDS[:4]:
+            res.states += 1
+            res.transitions += 2
+            res.evaluations += 1
+            case = {"module_index": mi, "strategy": "REPLICATE", "traced_mask": tm_full, "result": rk, "tier": ctx.tier, "polled": True}
+            try:
+                sib = StubIndexBuilder(modname, 0)
+                for t in make_traces(mod, metas, tm_full, "exc"):
+                    sib.log(t)
+                first = sib.get_stubs()[modname].render()
+                for t in make_traces(mod, metas, tm_full, rk):
+                    sib.log(t)
+                text = sib.get_stubs()[modname].render()
+            except Exception as e:  # noqa: BLE001
+                res.violate(Violation(ID, "exception", "polled-index", case, f"StubIndexBuilder raised {e!r}"))
+                continue
+            for where, txt, rk_ in (("first poll", first, "exc"), ("second poll", text, rk)):
+                for kind, sig, msg in check_stub(txt, mod, metas, "REPLICATE", tm_full, rk_, akind)[:2]:
+                    res.violate(Violation(ID, kind, "polled-index:" + sig, case, f"StubIndexBuilder, {where}: " + msg))
+        res.oblige("polled-stub-index", True)
     # CLI flags must select the same strategies (one combination per module)
     if only is None and (mi % 9 == 0 or (akind == "rewritable" and mi % 4 == 1)):
         cli_crosscheck(res, ctx, mod, modname, metas, n, mi, srcdir)
@@ -310,6 +336,7 @@ def run(ctx: Ctx) -> Result:
         res.obligations.setdefault(f"cli:{s}", False)
     for rk in RESULT_KINDS:
         res.obligations.setdefault(f"result:{rk}", False)
+    res.obligations.setdefault("polled-stub-index", False)
     res.bounds.update({"param_lists": len(param_lists(ctx.tier)), "annotation_kinds": ANN_KINDS, "modules": len(mods)})
     return res
 
@@ -328,6 +355,9 @@ def replay(case: Dict[str, Any], ctx: Ctx) -> List[Violation]:
         (srcdir / f"{modname}.py").write_text(src)
         mod = importlib.import_module(modname)
         cli_crosscheck(res, ctx, mod, modname, metas, len(pl), case["module_index"], srcdir)
+    elif case.get("polled"):
+        run_module(res, ctx, case["module_index"], pl, ak, srcdir)
+        return [v for v in res.violations if v.case.get("polled")]
     else:
         run_module(res, ctx, case["module_index"], pl, ak, srcdir, (case["strategy"], case["traced_mask"], case["result"]))
     return res.violations
